@@ -1061,7 +1061,8 @@ def rule_N8(src, lo, hi, enabled):
 
 def rule_N9(src, lo, hi, enabled):
     """for (I, X) in E.into_iter().enumerate() { B }  ->  { let mut I: usize = 0; for X in E { B I += 1; } }
-    (definition of Iterator::enumerate; B must not contain `continue`)"""
+    for (I, X) in E.into_iter().filter(|p| F).enumerate() { B } -> { let mut I = 0; for X in E { if { let p = &X; F } { B I += 1; } } }
+    (definitions of Iterator::enumerate / filter; B must not contain `continue`)"""
     out = []
     if "N9" not in enabled:
         return out
@@ -1083,16 +1084,42 @@ def rule_N9(src, lo, hi, enabled):
                 elif x == "{" and d == 0:
                     break
                 j += 1
-            tail = [x.text for x in toks[j - 8:j]]
-            if tail != [".", "into_iter", "(", ")", ".", "enumerate", "(", ")"]:
+            if [x.text for x in toks[j - 4:j]] != [".", "enumerate", "(", ")"]:
+                continue
+            e_end = j - 4            # index just past the expression in front of `.enumerate()`
+            filt = None
+            if toks[e_end - 1].text == ")":
+                # `.filter(|p| F)` in front of enumerate: enumerate then counts only the items that pass
+                q = e_end - 1
+                d2 = 0
+                while q > i:
+                    if toks[q].text == ")":
+                        d2 += 1
+                    elif toks[q].text == "(":
+                        d2 -= 1
+                        if d2 == 0:
+                            break
+                    q -= 1
+                if toks[q - 1].text == "filter" and toks[q - 2].text == ".":
+                    fpat, fbody, _c = _closure_parts(toks, src, q)
+                    if SIDE_EFFECT_RE.search(fbody):
+                        raise VxError("N9: filter predicate may have side effects")
+                    filt = (fpat, fbody)
+                    e_end = q - 2
+            if [x.text for x in toks[e_end - 4:e_end]] != [".", "into_iter", "(", ")"]:
                 continue
             bc = match_close(toks, j)
             body_txt = src[toks[j].end:toks[bc].start]
             if re.search(r"\bcontinue\b", body_txt):
                 raise VxError("N9: enumerate loop body contains `continue`")
-            expr = src[toks[i + 7].start:toks[j - 8].start].strip()
-            out.append(("N9", toks[i].start, toks[j].start, "{ let mut %s: usize = 0; for %s in %s " % (iv, xv, expr)))
-            out.append(("N9", toks[bc].start, toks[bc].end, "%s += 1; } }" % iv))
+            expr = src[toks[i + 7].start:toks[e_end - 4].start].strip()
+            if filt is None:
+                out.append(("N9", toks[i].start, toks[j].start, "{ let mut %s: usize = 0; for %s in %s " % (iv, xv, expr)))
+                out.append(("N9", toks[bc].start, toks[bc].end, "%s += 1; } }" % iv))
+            else:
+                out.append(("N9", toks[i].start, toks[j].end, "{ let mut %s: usize = 0; for %s in %s { if { %s%s } {" % (
+                    iv, xv, expr, _bind(filt[0], xv, True), filt[1])))
+                out.append(("N9", toks[bc].start, toks[bc].end, "%s += 1; } } }" % iv))
     return out
 
 
